@@ -876,13 +876,19 @@ rv = .false.
                 if subprogram == "function":
                     # The result of the function pointer,
                     # not of the function which has it as an argument.
-                    arg_c_decl.append(arg.gen_arg_as_fortran(
-                        bindc=True, local=True, name=key))
-                    self.update_f_module(
-                        modules,
-                        imports,
-                        arg.typemap.f_c_module or arg.typemap.f_module,
-                    )
+                    if arg.is_pointer():
+                        # A pointer result is an address.
+                        arg_c_decl.append("type(C_PTR) :: " + key)
+                        self.update_f_module(
+                            modules, imports, dict(iso_c_binding=["C_PTR"]))
+                    else:
+                        arg_c_decl.append(arg.gen_arg_as_fortran(
+                            bindc=True, local=True, name=key))
+                        self.update_f_module(
+                            modules,
+                            imports,
+                            arg.typemap.f_c_module or arg.typemap.f_module,
+                        )
                 arguments = ",\t ".join(arg_f_names)
                 if node.options.literalinclude:
                     iface.append("! start abstract " + key)
